@@ -303,6 +303,19 @@ func (l *Layout) keccakOf(arg ssa.Value, d int) string {
 func (l *Layout) call(c *ssa.Call, d int) string {
 	name := CallName(c)
 	args := c.Call.Args
+	// append(append(make([]byte, 0, n), a...), b...) — concatenation
+	if b, ok := c.Call.Value.(*ssa.Builtin); ok && b.Name() == "append" && isByteSlice(c.Type()) && len(args) == 2 {
+		tail := l.of(args[1], d+1)
+		if m, ok := args[0].(*ssa.MakeSlice); ok {
+			if n, isC := ConstInt(m.Len); isC && n == 0 {
+				return tail
+			}
+		}
+		if isNilByteConst(args[0]) {
+			return tail
+		}
+		return l.of(args[0], d+1) + "|" + tail
+	}
 	switch name {
 	case "github.com/ethereum/go-ethereum/crypto.Keccak256Hash", "github.com/ethereum/go-ethereum/crypto.Keccak256",
 		"github.com/iden3/go-iden3-crypto/keccak256.Hash":
